@@ -1,5 +1,7 @@
 import I2N.Lemmas.PolicyFrame
 import I2N.Lemmas.PolicyGenChain
+import I2N.Lemmas.PolicyGenIter
+import I2N.Lemmas.PolicyIterStable
 /-!
 # C12 — State operations follow the documented policy table and a store model
 
@@ -534,5 +536,90 @@ example : ((genChain .get B0 "nets/vms/images" "net1/vm1/image1").run ⟨spImg, 
       (some "launch", some "images", some "no") := by decide +kernel
 
 end Regenerated
+
+/-! ## 6. `_parametric_object_iteration` regenerated from the source (`harness/pygen_pxiter.py`)
+
+The loops of check/get/set/unset/push/pop_states run over the recursive generator `_parametric_object_iteration`; the hand
+model's `iterObjects` / `iterAux` stood for it by the differential runs only.  `I2N/Extracted/GenIter.lean` holds ONE level
+of the generator translated from the current source (`genIterLevel self params composites_is_none`, monad `G` of
+`Lemmas/PolicyIterM.lean`: state = the list `composites` SHARED by all levels + the dictionaries yielded so far; `self` =
+the recursive call). -/
+section RegeneratedIter
+open I2N.PolicyIterM I2N.Extracted.GenIter I2N.PolicyGenIter
+
+/-- **One level, open recursion.**  For every function `self` put in place of the recursive call: if `self`, called at
+depth `k + 1` on the shared list, yields what the hand model's `iterAux` yields there and gives the list back as it got
+it, then the level generated from the source, entered at depth `k` (`len(composites) = k`; `b` = "called without the
+list", then the list is created), yields what `iterAux` yields at depth `k` - components first, then the composite, every
+object with `object_name` / `object_type` joined from the shared list - and gives the list back as it got it (the `pop`).
+Hypotheses: the dictionary's `states_chain` is `full`, `k` is a valid index (always true for the callers: see
+`iterObjects_matches_source`), and `chainStable`: the dictionaries handed down re-read the same `states_chain`. -/
+theorem iterLevel_matches_source (self : Params → G Unit) (full : List String) (last : String)
+    (hlast : full.getLast? = some last) (k : Nat) (hself : Spec self full last (k + 1))
+    (b : Bool) (p : Params) (cs : List (String × String)) (out : List Params) (c0 : List (Option (String × String)))
+    (hp : p.objects "states_chain" = full) (hk : cs.length = k) (hlt : k < full.length)
+    (hst : chainStable full last (full.drop k) cs p = true)
+    (hc : (if b then [] else c0) = cs.map some) :
+    genIterLevel self p b ⟨c0, out⟩ = (.ok (), ⟨cs.map some, out ++ iterAux last (full.drop k) cs p⟩) :=
+  genIterLevel_step self full last hlast k hself b p cs out c0 hp hk hlt hst hc
+
+/-- **`_parametric_object_iteration(params)` is `iterObjects params`.**  `iterFuel n` is the generated level closed under
+itself `n` times (Python's recursion with `n` frames below the top-level call; a deeper call would be a RecursionError).
+For EVERY dictionary `p` whose chain is stable (`topStable p`, decidable: every dictionary the iteration descends into
+re-reads the same `states_chain`; the code reads the key at every level, the hand model once), every `n + 1` at least the
+length of the chain and every generator state: the top-level call yields exactly the list of `iterObjects p`, in its
+order, and leaves its (own, fresh) list empty; with an empty / missing `states_chain` it raises ValueError before it
+yields anything - which is `iterObjects p = .error .valueError`. -/
+theorem iterObjects_matches_source (n : Nat) (p : Params) (hn : (p.objects "states_chain").length ≤ n + 1)
+    (hst : topStable p = true) (s : GS) :
+    genIterLevel (iterFuel n) p true s = iterObjectsG p s :=
+  top_of_spec (iterFuel n) p (fun last hl => iterFuel_spec _ last hl n 1 (by omega)) hst s
+
+/-- NV: the standard dictionary (one net, one vm, two images) has a stable chain; 2 frames suffice; the generated
+recursion yields the two images, then the vm, then the net -/
+example : topStable (p0 "ra") = true ∧ ((p0 "ra").objects "states_chain").length ≤ 2 + 1 := by decide +kernel
+example : ((genIterLevel (iterFuel 2) (p0 "ra") true ⟨[], []⟩).2.out.map (fun sp => sp.getD "object_name" "")) =
+    ["net1/vm1/image1", "net1/vm1/image2", "net1/vm1", "net1"] ∧
+    (genIterLevel (iterFuel 2) (p0 "ra") true ⟨[], []⟩).2.comps = [] := by decide +kernel
+/-- NV of `iterLevel_matches_source`: `iterFuel n` is a `self` that satisfies its hypothesis -/
+example : Spec (iterFuel 2) ["nets", "vms", "images"] "images" 1 := iterFuel_spec _ _ rfl 2 1 (by decide)
+
+/-- **… and the hypothesis is what the callers provide**: `Params.object_params(name)` can overwrite `states_chain` only
+from a key `states_chain_<name>…`; a dictionary NONE of whose keys begins with `states_chain_` (`NoSuffix`; the shipped
+configuration defines the plain key only, and `_state_check_chain` / `push_states` / `pop_states` write the plain key only)
+and whose chain names no type `states_chain` / `states_chain_…` (`okType`) has a stable chain at every depth
+(`topStable_of_noSuffix`, by induction over the chain with the fold of `object_params` as invariant).  So for every such
+dictionary, of any size, the generator regenerated from the source yields exactly `iterObjects p`. -/
+theorem iterObjects_matches_source_noSuffix (n : Nat) (p : Params)
+    (hn : (p.objects "states_chain").length ≤ n + 1) (h : NoSuffix p)
+    (ht : ∀ t ∈ p.objects "states_chain", okType t = true) (s : GS) :
+    genIterLevel (iterFuel n) p true s = iterObjectsG p s :=
+  iterObjects_matches_source n p hn (topStable_of_noSuffix p h ht) s
+
+/-- NV: the standard dictionary has no `states_chain_…` key and ordinary type names -/
+example : NoSuffix (p0 "ra") ∧ ∀ t ∈ (p0 "ra").objects "states_chain", okType t = true := by
+  unfold NoSuffix; decide +kernel
+
+def iterErrOf (r : Except IterErr Unit × GS) : Option IterErr :=
+  match r.1 with
+  | .error e => some e
+  | .ok _ => none
+
+/-- the dictionary of `iterObjects_unstable_witness`: the net re-defines the chain for what is below it -/
+def pUnstable : Params :=
+  [("nets", "net1"), ("vms", "vm1"), ("states_chain", "nets vms"), ("states_chain_net1", "nets")]
+
+/-- **The hypothesis `topStable` cannot be dropped** (a deviation of the hand model outside the documented space -
+`states_chain_<object>` keys - not a defect of /repo): with `states_chain = nets vms`, `states_chain_net1 = nets` the code
+re-reads the chain `nets` inside `net1` and `object_composition[len(composites)]` raises IndexError after nothing was
+yielded; the hand model yields `net1/vm1` and `net1`. -/
+theorem iterObjects_unstable_witness :
+    topStable pUnstable = false ∧
+    iterErrOf (genIterLevel (iterFuel 5) pUnstable true ⟨[], []⟩) = some .indexError ∧
+    (genIterLevel (iterFuel 5) pUnstable true ⟨[], []⟩).2.out = [] ∧
+    ((iterObjectsG pUnstable ⟨[], []⟩).2.out.map (fun sp => sp.getD "object_name" "")) = ["net1/vm1", "net1"] := by
+  decide +kernel
+
+end RegeneratedIter
 
 end I2N.Props.C12
